@@ -333,4 +333,16 @@ example : ∃ d doc, parseSdlTextT (printSchemaTA { whitelist := some ["other"] 
 example : build (schemaToDocA shop {} [("", [{ name := "tag" }]), ("Query", [{ name := "tag" }])]) = .ok shop :=
   print_build_roundtrip_custom shop {} _ shop_wf
 
+/-- `text_roundtrip_custom_final` — the same with the rebuilt schema stated up to the order of its definitions (the printer
+    sorts them), as `text_roundtrip_final` -/
+theorem text_roundtrip_custom_final (c : OptsA) (s : SchemaD) (apps : Apps) (hwf : printTextWFA c s apps = true)
+    (hb : printBuildWF s = true) :
+    ∃ (d : Ast.Document) (doc : Doc) (s' : SchemaD), parseSdlTextT (printSchemaTA c s apps) = some d ∧ docToAst doc = some d ∧
+      build doc = .ok s' ∧ SameUpToOrder s' s := by
+  obtain ⟨d, doc, h1, h2, _, h4⟩ := text_roundtrip_custom_build c s apps hwf hb
+  exact ⟨d, doc, printOrder s, h1, h2, h4, types_perm s, directives_perm s, rfl, rfl, rfl, rfl⟩
+
+example : ∃ d doc s', parseSdlTextT (printSchemaTA {} shop [("Query", [{ name := "tag" }])]) = some d ∧ docToAst doc = some d ∧
+    build doc = .ok s' ∧ SameUpToOrder s' shop := text_roundtrip_custom_final {} shop _ (by decide) shop_wf
+
 end PyGql.Props.C12
